@@ -158,11 +158,17 @@ class JobCtx:
         key: Optional[str] = None,
         timeout_ms: int = 30000,
         extra: Optional[List] = None,
+        refine: Optional[Callable[[Dict[str, Any]], List]] = None,
+        _depth: int = 0,
     ) -> str:
         """Decide pc ∧ ¬prop. prop: z3 BoolRef / SymBool / bool.
 
         replay(concrete_inputs) must call the REAL unshimmed code and return a dict
         describing the reproduced violation, or None if it does not reproduce.
+
+        refine(concrete_inputs) -> extra constraints: when the model leans on an uninterpreted
+        function (e.g. str.isalpha outside ASCII) and the witness does not reproduce, the ground truth
+        for the values the solver picked is added and the query repeated (counterexample-guided, <= 12 rounds).
         """
         ob = self.obligations.setdefault(label, {"unsat": 0, "sat": 0, "unknown": 0})
         fkey0 = key or f"{self.prop_id}:{self.job.name}:{label}"
@@ -198,6 +204,11 @@ class JobCtx:
             except Exception as e:
                 detail = None
                 self.notes.append(f"replay of '{label}' raised {type(e).__name__}: {e}")
+        if detail is None and refine is not None and _depth < 12:
+            more = refine(conc)
+            if more:
+                self.q["refinements"] = self.q.get("refinements", 0) + 1
+                return self.prove(r, prop, label, inputs, replay, key, timeout_ms, list(extra or []) + list(more), refine, _depth + 1)
         if detail is None:
             self.inconclusive.append(
                 f"{self.job.name}: '{label}' sat but the witness did not reproduce on the real code "
